@@ -238,6 +238,9 @@ func (n *Name) UnmarshalJSON(b []byte) error {
 	n.Names = appendATV(n.Names, aux.PostalCode, oidPostalCode)
 	n.Names = appendATV(n.Names, aux.DomainComponent, oidDomainComponent)
 	n.Names = appendATV(n.Names, aux.EmailAddress, oidDNEmailAddress)
+	n.Names = appendATV(n.Names, aux.GivenName, oidGivenName)
+	n.Names = appendATV(n.Names, aux.Surname, oidSurname)
+	n.Names = appendATV(n.Names, aux.OrganizationID, oidOrganizationID)
 	// EV
 	n.Names = appendATV(n.Names, aux.JurisdictionCountry, oidJurisdictionCountry)
 	n.Names = appendATV(n.Names, aux.JurisdictionLocality, oidJurisdictionLocality)
@@ -255,6 +258,10 @@ func (n *Name) UnmarshalJSON(b []byte) error {
 	n.StreetAddress = aux.StreetAddress
 	n.PostalCode = aux.PostalCode
 	n.DomainComponent = aux.DomainComponent
+	n.EmailAddress = aux.EmailAddress
+	n.GivenName = aux.GivenName
+	n.Surname = aux.Surname
+	n.OrganizationIDs = aux.OrganizationID
 	// EV
 	n.JurisdictionCountry = aux.JurisdictionCountry
 	n.JurisdictionLocality = aux.JurisdictionLocality
